@@ -822,6 +822,17 @@ class _Execution:
                              sig=f"cds.region:{'stale' if actual is not None and actual not in regions else 'wrong'}")
                 return
 
+        # the record-level view of the same fact: the genes within regions (asked after every step, as the
+        # per-area analyses do between other actors' additions)
+        if region_parts and not any(len([i for i, parts in enumerate(region_parts) if contained(g["parts"], parts)]) > 1
+                                    for g in genes.values()):
+            expected = sorted(n for n, g in genes.items() if any(contained(g["parts"], parts) for parts in region_parts))
+            listed = self._names(rec.get_cds_features_within_regions())
+            if sorted(listed) != expected:
+                self.violate("C08-a", f"get_cds_features_within_regions() lists {sorted(listed)}, the regions "
+                             f"{region_parts} contain {expected} (after {op['op']})",
+                             sig=f"within-regions:{'missing' if set(expected) - set(listed) else 'extra'}")
+                return
         # ---- C06-a numbering
         getters = (
             ("protocluster", protos, rec.get_protocluster, rec.get_protocluster_number,
